@@ -36,6 +36,10 @@ PINS = {
     "C20_iff": "hash_separates H A B piA piB fa fb -> "
                "type_id H (U_T A) (U_lay A) (U_refs A) piA fa (U_root A) = Ok ia -> "
                "type_id H (U_T B) (U_lay B) (U_refs B) piB fb (U_root B) = Ok ib -> (ia = ib <-> wire_equal A B)",
+    "C20_terminates": "(forall t, u_reach U t -> In t all) -> "
+                      "(length (U_refs U (U_root U)) + S (mref (U_T U) (U_refs U) all) * length all < fuel)%nat -> "
+                      "exists x, compute_bytes (U_T U) (U_lay U) (U_refs U) pi fuel (U_root U) = Ok x",
+    "C20_terms": "(wire_equal (to_univ H A) (to_univ H B) <-> wire_equal_terms H A B)",
     "C20_roundtrip": "forall r, intro_ok r = true -> exists bs, encode_intro r = Ok bs /\\ decode_intro bs = Ok r",
     "C20_references_resolve": "forall ir r, from_ir ir = Some r -> resolved r",
     "C20_builder_order_struct": "Permutation fs fs' -> NoDup (map f_id fs) -> "
